@@ -9,6 +9,7 @@ import (
 	configapi "github.com/onosproject/onos-api/go/onos/config/v2"
 	"github.com/onosproject/onos-config/pkg/utils"
 	valueutils "github.com/onosproject/onos-config/pkg/utils/v2/values"
+	"github.com/onosproject/onos-lib-go/pkg/errors"
 	"github.com/onosproject/onos-lib-go/pkg/uri"
 	"github.com/openconfig/gnmi/proto/gnmi"
 )
@@ -25,6 +26,15 @@ func newUpdateResult(pathStr string, target string, op gnmi.UpdateResult_Operati
 	}
 	return updateResult, nil
 
+}
+
+// checkPathParses refuses a path that cannot be turned back into gNMI path elements: the
+// SetResponse is built from them after the transaction has been logged and committed
+func checkPathParses(path string) error {
+	if _, err := utils.ParseGNMIElements(utils.SplitPath(path)); err != nil {
+		return errors.NewInvalid("invalid path %s: %s", path, err.Error())
+	}
+	return nil
 }
 
 func computeChanges(targets map[configapi.TargetID]*targetInfo) (map[configapi.TargetID]*configapi.PathValues, error) {
@@ -49,12 +59,18 @@ func computeChange(target *targetInfo) (*configapi.PathValues, error) {
 		if err != nil {
 			return &configapi.PathValues{}, err
 		}
+		if err := checkPathParses(path); err != nil {
+			return &configapi.PathValues{}, err
+		}
 		newChanges[path] = updateValue
 	}
 	//deletes
 	for _, path := range target.removes {
 		deleteValue, err := valueutils.NewChangeValue(path, *configapi.NewTypedValueEmpty(), true)
 		if err != nil {
+			return &configapi.PathValues{}, err
+		}
+		if err := checkPathParses(path); err != nil {
 			return &configapi.PathValues{}, err
 		}
 		newChanges[path] = deleteValue
